@@ -499,6 +499,19 @@ def build_defaults(tier, seed):
             d.support.append(cell % ("usize", "usize"))
             d.vals.append(Vld(k, btxt, 10))
             d.derives = ["Debug", "TryFrom"]
+    # literal string defaults whose whitespace / case the *later* built-in sanitizers remove: the custom sanitizer, written first, must still see them
+    for (body, after, dflt, vs) in (("format!(\"{x}{x}\")", ["trim"], " a ", []), ("x.replace(' ', \"_\")", ["trim", "lowercase"], " Hello World ", []),
+                                    ("x.replace('A', \"b\")", ["lowercase"], "AbA", [("len_char_max", 5)]), ("format!(\"{x}?\")", ["trim", "uppercase"], "maybe ", [("not_empty", None)]),
+                                    ("x.trim_end().to_string()", ["uppercase", "trim"], "  xA ", [])):
+        for dsp in ("lit", "to_string"):
+            d = b.new(inner_string(), tags=list(tags))
+            add_with_sanitizer(d, body, "closure")
+            for a_ in after:
+                d.sans.append(San(a_))
+            for (k, v) in vs:
+                d.vals.append(Vld(k, None if v is None else str(v), v))
+            d.default = (rust_str(dflt) + (".to_string()" if dsp == "to_string" else ""), dflt)
+            d.derives = ["Debug", "Default", "TryFrom" if vs else "From", "FromStr"]
     scases = [("format!(\"{x}{x}\")", [("len_char_max", 5)], "abc"), ("format!(\"{x}{x}\")", [("len_char_max", 6)], "abc"),
               ("x.replace('x', \" \")", [("not_empty", None)], "xx"), ("x.chars().take(3).collect()", [("len_char_max", 3)], "abcdef")]
     for (body, vs, dflt) in scases:
